@@ -243,6 +243,7 @@ fn ack_step<const N: usize>(with_sack: bool, one_byte: bool, sel: AckSel) -> Ack
 fn seg_ack_n0() {
     let f = ack_step::<0>(false, false, AckSel::Any);
     assert!(f.k == 0, "C01: nothing to remove from an empty queue");
+    kani::cover!(true, "end of harness reachable (assumptions satisfiable, no unconditional failure)");
 }
 
 // @verif id=SEG.ack1 props=C01,C06,C09,C10 tier=quick timeout=900
@@ -418,6 +419,7 @@ fn seg_enqueue() {
     } else {
         enqueue_step::<2>();
     }
+    kani::cover!(true, "end of harness reachable (assumptions satisfiable, no unconditional failure)");
 }
 
 // ---- MTU probe pops --------------------------------------------------------------------------
@@ -667,6 +669,7 @@ fn seg_calc_pipe_n3() {
     assert!(p.pipe <= 2 * s.len_bytes, "C10: pipe estimate bounded by twice the queued bytes");
     assert!(inv(&s), "C10: calc_pipe leaves the accounting alone");
     std::mem::forget(s);
+    kani::cover!(true, "end of harness reachable (assumptions satisfiable, no unconditional failure)");
 }
 
 // ---- accessors for the tier-C harnesses (fields are private to stream_tx_segments.rs) ------------
